@@ -273,7 +273,13 @@ def run_coq_text(name, text, timeout=1800):
     path = os.path.join(d, "cases.v")
     with open(path, "w") as f:
         f.write(text)
-    rc, out = sh(["timeout", str(timeout), "coqc", "-R", COQ, "Mkdb", "-Q", d, "Cases", path], cwd=d, timeout=timeout + 30)
+    rc, out = sh(["timeout", str(timeout), "coqc", "-noglob", "-R", COQ, "Mkdb", "-Q", d, "Cases", path], cwd=d, timeout=timeout + 30)
+    # the compiled case file is of no further use (only the printed result is)
+    for ext in (".vo", ".vok", ".vos", ".glob"):
+        try:
+            os.remove(os.path.join(d, "cases" + ext))
+        except OSError:
+            pass
     return rc, out
 
 
@@ -284,7 +290,21 @@ def run_coq_cases(name, header, case_terms, ctype, defs, shard=400, timeout=1800
     ctype: Coq type of a case
     defs: dict NAME -> Coq function (case -> bool); for each the indices of failing cases are returned
     Returns (ok, {NAME: [global indices]}, raw_log)."""
-    shards = [case_terms[i:i + shard] for i in range(0, len(case_terms), shard)] or [[]]
+    # shards of at most `shard` cases and about 4 MB of text (coqc's memory grows with the size of the
+    # literal: a 45 MB case file needs more than 10 GB)
+    shards, starts, cur, size = [], [], [], 0
+    for k, t in enumerate(case_terms):
+        if cur and (len(cur) >= shard or size + len(t) > 4000000):
+            shards.append(cur)
+            cur, size = [], 0
+        if not cur:
+            starts.append(k)
+        cur.append(t)
+        size += len(t)
+    if cur or not shards:
+        if not cur:
+            starts.append(0)
+        shards.append(cur)
 
     def one(i):
         terms = shards[i]
@@ -311,7 +331,7 @@ def run_coq_cases(name, header, case_terms, ctype, defs, shard=400, timeout=1800
                 ok = False
                 logs.append("shard %d: cannot parse %s\n%s" % (i, nm, out[-2000:]))
             else:
-                results[nm].extend(i * shard + j for j in idx)
+                results[nm].extend(starts[i] + j for j in idx)
     return ok, results, "\n".join(logs)
 
 
